@@ -641,12 +641,12 @@ func main() {
 	}
 	n := *ncases
 	if n == 0 {
-		n = 260
+		n = 600
 		if *tier == "thorough" {
 			n = 4000
 		}
 	}
-	budget := 45 * time.Second
+	budget := 32 * time.Second
 	if *tier == "thorough" {
 		budget = 12 * time.Minute
 	}
